@@ -176,6 +176,7 @@ type mix struct {
 	pkceBad                                                                                                                     int // percent of redemptions on PKCE grants using a bad verifier variant
 	mutate                                                                                                                      int // percent of introspections presenting a mutated credential
 	extras                                                                                                                      int // percent of authorisations whose session carries extra claims named like reserved introspection members
+	parRedirect                                                                                                                 int // percent of pushed requests naming a redirect_uri / of their uses repeating another one, followed by a redemption with that other one (C02)
 	assertions                                                                                                                  int // weight of JWT assertion presentations on both sides of their expiry (C07)
 }
 
@@ -360,7 +361,7 @@ func genHistory(t *Tape, k *Knobs, m mix, n int) []Step {
 				if t.Chance(m.pkce) {
 					kv = append(kv, "pkce", "S256")
 				}
-				if t.Chance(20) {
+				if t.Chance(20 + m.parRedirect) {
 					kv = append(kv, "redirect", "reg:1")
 				}
 				steps = append(steps, st("par_push", t.Intn(nc), 0, kv...))
@@ -381,11 +382,15 @@ func genHistory(t *Tape, k *Knobs, m mix, n int) []Step {
 				if t.Chance(10) {
 					s.P["x_nonce"] = "attacker-nonce-abcdefgh"
 				}
-				if t.Chance(15) {
-					s.P["x_redirect"] = "reg:1"
+				if t.Chance(15 + m.parRedirect) {
+					s.P["x_redirect"] = t.Pick([]string{"reg:1", "reg:0"})
 				}
 				steps = append(steps, s)
 				codes++
+				if s.P["x_redirect"] != "" && t.Chance(m.parRedirect) {
+					// the code of a pushed request is bound to the PUSHED redirect_uri, not to one repeated at the authorization endpoint
+					steps = append(steps, Step{Op: "redeem", C: -1, V: "latest", P: map[string]string{"redir": t.Pick([]string{"other", "other", ""})}})
+				}
 			}
 		case 15:
 			steps = append(steps, Step{Op: "jwt_bearer", C: t.Intn(2), D: int64(t.Intn(4)), P: map[string]string{"scope": t.Pick([]string{"", "photos", "mail.read", "photos mail.read"})}})
@@ -439,12 +444,29 @@ type Profile struct {
 	Gen  func(t *Tape) *Plan
 }
 
+// sprinkleFaults turns a fault-free history into a recovery history: some token-endpoint requests meet a storage failure, a
+// crash or a transaction failure at a random storage call; the rest of the history runs fault-free, so that the "faults stop
+// => the system converges" rules (reconverged, fail-closed, retry after a clean rollback) get material in ARBITRARY histories,
+// not only in the fixed flows that C18 enumerates.
+func sprinkleFaults(t *Tape, steps []Step, pct int) []Step {
+	kinds := append(append([]string{}, c18Kinds...), c18TxKinds...)
+	for i := range steps {
+		switch steps[i].Op {
+		case "redeem", "refresh", "device_token", "revoke", "authz_par":
+			if t.Chance(pct) {
+				steps[i].F = &FaultSpec{Kind: t.Pick(kinds), At: t.Intn(9)}
+			}
+		}
+	}
+	return steps
+}
+
 var Profiles = map[string]*Profile{}
 
 func reg(p *Profile) { Profiles[p.Name] = p }
 
 func init() {
-	regProp(&PropSpec{ID: "C01", Profiles: []string{"c01"}, Characteristic: []string{"code-replay"}, Level: "exploration",
+	regProp(&PropSpec{ID: "C01", Profiles: []string{"c01", "c01f"}, Characteristic: []string{"code-replay"}, Level: "exploration",
 		Rule: "seeded sequential histories (authorize/redeem/refresh/revoke/introspect/advance, 3 clients, code+hybrid flows, swarm config); non-trivial = the history replays an already-redeemed code at least once; distinct = distinct abstract history shape x store x token strategy"})
 	reg(&Profile{Name: "c01", Prop: "C01", Gen: func(t *Tape) *Plan {
 		k := swarmKnobs(t)
@@ -472,7 +494,7 @@ func init() {
 		}})
 	}
 	// C02: binding of the code to client / redirect_uri / lifetime; immutable grant
-	hist("c02", "C02", mix{authz: 16, hybrid: 5, redeem: 14, redeemBad: 22, refresh: 4, introspect: 6, advance: 12, pkce: 15}, 10, 36, func(t *Tape, k *Knobs) {
+	hist("c02", "C02", mix{authz: 16, hybrid: 5, redeem: 14, redeemBad: 22, refresh: 4, introspect: 6, advance: 12, par: 8, parRedirect: 40, pkce: 15}, 10, 36, func(t *Tape, k *Knobs) {
 		k.Clients[1].RedirectURIs = append(k.Clients[1].RedirectURIs, "https://app-b.sim/other")
 	})
 	// C03: PKCE attempt sequences under every enforcement configuration
@@ -537,13 +559,35 @@ func init() {
 		}
 	})
 
-	regProp(&PropSpec{ID: "C02", Profiles: []string{"c02"}, Characteristic: []string{"redeem-foreign-client", "redeem-redirect-mismatch"}})
+	// recovery variants: the same histories with storage failures / crashes inside some token requests
+	recov := func(name, base string, pct int, stores []string) {
+		b := Profiles[base]
+		reg(&Profile{Name: name, Prop: b.Prop, Gen: func(t *Tape) *Plan {
+			p := b.Gen(t)
+			p.Profile = name
+			if stores != nil {
+				p.K.Store = t.Pick(stores)
+			}
+			p.Steps = sprinkleFaults(t, p.Steps, pct)
+			return p
+		}})
+	}
+	recov("c01f", "c01", 12, []string{"plain", "plain", "tx"})
+	recov("c04f", "c04", 10, []string{"plain", "plain", "tx"})
+	recov("c16f", "c16", 10, nil)
+	recov("c17f", "c17", 15, []string{"plain", "plain", "tx"})
+	recov("c02f", "c02", 10, nil)
+	recov("c05f", "c05", 8, nil)
+	recov("c07f", "c07", 8, nil)
+	recov("c08f", "c08", 10, nil)
+
+	regProp(&PropSpec{ID: "C02", Profiles: []string{"c02", "c02f"}, Characteristic: []string{"redeem-foreign-client", "redeem-redirect-mismatch"}})
 	regProp(&PropSpec{ID: "C03", Profiles: []string{"c03"}, Characteristic: []string{"pkce-bad-verifier"}})
-	regProp(&PropSpec{ID: "C04", Profiles: []string{"c04"}, Characteristic: []string{"rt-reuse"}})
-	regProp(&PropSpec{ID: "C05", Profiles: []string{"c05"}, Characteristic: []string{"refresh-foreign-client", "refresh-registration-narrowed"}})
-	regProp(&PropSpec{ID: "C07", Profiles: []string{"c07"}, Characteristic: []string{"boundary:"}})
-	regProp(&PropSpec{ID: "C08", Profiles: []string{"c08"}, Characteristic: []string{"revoke-"}})
+	regProp(&PropSpec{ID: "C04", Profiles: []string{"c04", "c04f"}, Characteristic: []string{"rt-reuse"}})
+	regProp(&PropSpec{ID: "C05", Profiles: []string{"c05", "c05f"}, Characteristic: []string{"refresh-foreign-client", "refresh-registration-narrowed"}})
+	regProp(&PropSpec{ID: "C07", Profiles: []string{"c07", "c07f"}, Characteristic: []string{"boundary:"}})
+	regProp(&PropSpec{ID: "C08", Profiles: []string{"c08", "c08f"}, Characteristic: []string{"revoke-"}})
 	regProp(&PropSpec{ID: "C09", Profiles: []string{"c09"}, Characteristic: []string{"introspect-"}})
-	regProp(&PropSpec{ID: "C16", Profiles: []string{"c16"}, Characteristic: []string{"device-"}})
-	regProp(&PropSpec{ID: "C17", Profiles: []string{"c17"}, Characteristic: []string{"par-"}})
+	regProp(&PropSpec{ID: "C16", Profiles: []string{"c16", "c16f"}, Characteristic: []string{"device-"}})
+	regProp(&PropSpec{ID: "C17", Profiles: []string{"c17", "c17f"}, Characteristic: []string{"par-"}})
 }
